@@ -304,8 +304,8 @@ fn gen_impl_delegation_trait_defs(
                 #trait_def
 
                 #(#cfg_attributes)*
-                pub trait #delegation_ident<T> {
-                    type Target: #impl_trait_ident<T>;
+                pub trait #delegation_ident<EntraitT> {
+                    type Target: #impl_trait_ident<EntraitT>;
                 }
             }))
         }
